@@ -152,9 +152,10 @@ def run(ctx):
     if not q:
         scan_stage(ctx, zr, "merge-5part", "pebble", "local", ["-segments", "4", "-P", "5"] + norev, stats, samples,
                    driver="mergesim", cfg="ZScanTraceMerge.cfg", parts=2)
-        # COUNT around the store's batch limit on a collection above it (slow in TLC: thorough only)
-        scan_stage(ctx, zr, "isolate-bigcount", "pebble", "local", ["-bigcount", "5203"], stats, samples,
-                   expect="C13-count-above-batch-limit", cfg="ZScanTraceBig.cfg", parts=1, timeout=2400)
+    # COUNT around the store's batch limit (5 000) on a set of 5 203 members, forwards and in reverse - formerly
+    # the isolate stage of C13-count-above-batch-limit (fixed 63306fe), now strict
+    scan_stage(ctx, zr, "bigcount", "pebble", "local", ["-bigcount", "5203"] + ([] if q else ["-bigfull"]), stats, samples,
+               cfg="ZScanTraceBig.cfg", parts=1, timeout=2400)
     # isolate stages: produce each recorded finding's trigger on purpose
     if not plain:
         scan_stage(ctx, zr, "isolate-plainscan", "pebble", "local", ["-segments", "3", "-spaces", "1", "-conc", "3", "-thin", "3", "-plainscan", "-collonly"],
